@@ -71,6 +71,8 @@ def main():
                 print("  patched tail:", out1[-300:].replace("\n", " | "))
                 continue
             dest = os.path.join(HERE, "seeded", sid)
+            if os.path.exists(os.path.join(dest, "patch.diff")) and open(os.path.join(dest, "patch.diff")).read() != open(patch).read():
+                dest += "_r2"       # a later round chose the slug of an earlier, different change
             os.makedirs(dest, exist_ok=True)
             for fn in ("patch.diff", "demo.py", "notes.md"):
                 if os.path.exists(os.path.join(d, fn)):
